@@ -25,17 +25,13 @@ def _floyd_warshall_rust(
     """Rust adapter for Floyd-Warshall algorithm."""
     rust = get_rust_module()
 
-    # For undirected graphs, expand to bidirectional edges
+    # For undirected graphs, expand to bidirectional edges. Duplicate edges are kept:
+    # the kernel (like the Python implementation) takes the minimum weight per pair.
     if not directed:
-        edge_set: set[tuple[int, int]] = set()
         expanded: list[tuple[int, int, float]] = []
         for u, v, w in edges:
-            if (u, v) not in edge_set:
-                expanded.append((u, v, w))
-                edge_set.add((u, v))
-            if (v, u) not in edge_set:
-                expanded.append((v, u, w))
-                edge_set.add((v, u))
+            expanded.append((u, v, w))
+            expanded.append((v, u, w))
         edges = expanded
 
     result = rust.floyd_warshall(n_nodes, edges)
